@@ -15,6 +15,14 @@ CHECKS = {
             "explicit-state exploration + exhaustive second-use attack menu against the real ValidateBlock at every reachable state",
             "At every distinct state of a union-alphabet exploration, for one canonical live element of every kind, every ordered pair (first use, second use) x every placement (same transaction, same block, next block stale proof, next block maintained proof, after reorg) is built, re-signed and sealed; all must be rejected, and each use alone (control) must be accepted. Along all accepted histories the reference ledger never sees an element spent twice.",
             "Control experiments guard against vacuous rejections; bounds H/D/K as reported in evidence.", "3/C02"),
+    "C04": ("E1", "model_checking",
+            "explicit-state exploration + exhaustive single-mutation menu (reflection walk) through the three membership doors of the real code",
+            "At every distinct state (all six leaf kinds; live, spent, resolved, reverted-branch elements; leaf positions in the state key) every tracked element is presented unmodified (accepted iff live per reference ledger) and under every single field / index / proof mutation (rejected) to ValidateTransactionElements; one canonical element per kind under every mutation to ValidateV2Transaction (re-balanced, re-signed) and to ValidateBlock's v1 supplement check.",
+            "Reference ledger decides liveness; mutations are single-point (one field +-1 / byte flip / proof edit); hash collisions assumed absent.", "3/C04"),
+    "C05": ("E1", "model_checking",
+            "exhaustive (size, updated subset, growth) enumeration and explicit-state exploration of apply/revert interleavings against a naive reference Merkle forest with independent leaf hashing",
+            "For every accumulator size up to N, every subset of live leaves updated in a block (all subsets for <=10 leaves), every growth 2..9, follow-up blocks and revert/re-apply of depth <=3, plus a union-alphabet exploration with revisions/resolutions/attestations: every tracked element's maintained proof equals the reference path with its current spent status, roots and leaf count equal the naive forest, ForEachTreeNode equals the reference nodes.",
+            "Leaf positions are taken from the implementation's diffs (range/uniqueness checked); leaf hashes and all interior nodes are recomputed independently (x/crypto blake2b).", "3/C05"),
     "C06": ("E1", "model_checking",
             "explicit-state exploration of reorg schedules over the real ApplyBlock/RevertBlock with snapshot-equality and byte-identical re-apply oracles",
             "For every accepted block of every explored history and every k<=R: RevertUpdate diffs mirror the ApplyUpdate diffs in reverse order, the store returns to exactly the pre-block snapshot (ids, fields, leaf indices, proofs), every element verifies against the parent state's reference forest, and re-applying yields byte-identical state encodings and update digests; revert(k)+competing blocks are part of the explored move set.",
